@@ -21,11 +21,12 @@ RULE = ('generated multi-function / multi-thread programs (32 shapes: loops, rec
         '(separate triggers or merged as convert_response does), method tracepoints by name, the stage argument spelled out (with a line tracepoint also naming its function), four action kinds; '
         'non-trivial = at least one action expected or a tracepoint installed on a never-matching location; '
         'distinct by (shapes, tracepoint set)')
-ASSUMPTIONS = ['only events CPython delivers to the trace function are in the quantifier',
+ASSUMPTIONS = ['only events CPython delivers to the trace function are in the quantifier; the one case in which the agent '
+               'declines a frame itself and this is accepted: the function was entered while no tracepoint at all was installed',
                'method tracepoints always carry method_name (the unnamed form is undocumented)']
 REQUIRE = {'reference_events': 50000, 'expected_actions': 2000, 'runs_with_threads': 10, 'colocated_runs': 40,
            'method_tracepoint_hits': 100,
-           'installed_via_convert_response': 60, 'updated_while_matching': 20, 'twin_file_runs': 60, 'explicit_stage_runs': 60, 'installed_while_program_running': 8}
+           'installed_via_convert_response': 60, 'updated_while_matching': 20, 'twin_file_runs': 60, 'explicit_stage_runs': 60, 'installed_while_program_running': 5}
 
 
 def plan(tier, seed):
@@ -125,6 +126,7 @@ def case_place(seed, out, spec, wd):
             triggers[trig.id + '#%d' % i if trig.id in triggers else trig.id] = trig
     rig = Rig(custom={'APP_ROOT': sub}, host_dir=sub,
               plugins=[plugins.RecLogger(), plugins.RecMetrics(), plugins.RecSpans()])
+    rig.record_opted_out = True
     via_wire = r.chance(0.4)
     if via_wire:
         # the way the agent receives them: protobuf messages through convert_response (which merges by location)
@@ -150,17 +152,27 @@ def case_place(seed, out, spec, wd):
         orig = swapper.at_location
         fired = []
 
+        # sometimes the tracepoints arrive only now: until this event the agent had a configuration (so it is tracing)
+        # but nothing for this program's files; functions that are already running get their tracepoints as well
+        late_install = r.chance(0.4)
+
         def swapping(event, file, line_, function_name, frame):
-            if not fired and event == 'line' and file == prog.base and (target is None or line_ == target[1]):
-                ev_ = rig.current_event()
-                fired.append(ev_.seq if ev_ is not None else 0)
+            if not late_install and not fired and event == 'line' and file == prog.base and (
+                    target is None or line_ == target[1]):
+                fired.append(0)
                 rig.handler.new_config(list(keep))
             return orig(event, file, line_, function_name, frame)
 
         swapper.at_location = swapping
-        # sometimes the tracepoints arrive only now: until this event the agent had a configuration (so it is tracing)
-        # but nothing for this program's files; functions that are already running get their tracepoints as well
-        late_install = r.chance(0.4)
+
+        def late_pre(ev, frame, arg):
+            # (done from the recorder, which also sees frames the agent declined: before the agent gets this event)
+            if late_install and not fired and ev.kind == 'line' and ev.base == prog.base and ev.func != 'main' and (
+                    target is None or ev.line == target[1]):
+                fired.append(ev.seq)
+                rig.handler.new_config(list(keep))
+
+        rig.pre = late_pre
         installed = [swapper] if late_install else [swapper] + keep
     rig.install(installed)
     actual = []   # (tp_id, kind, ev.seq)
@@ -206,8 +218,10 @@ def case_place(seed, out, spec, wd):
         float('inf') if (mid_update and late_install) else -1)
     for ev in rig.events:
         threads.add(ev.tid)
-        if ev.seq <= installed_from:
+        if ev.seq < installed_from:
             continue
+        if ev.opted_out and ev.cfg_empty_at_call:
+            continue   # a function entered while the agent had no tracepoint at all is not traced (events not delivered)
         if ev.kind == 'line':
             for tp_id, expect in by_line.get((ev.base, ev.line), ()):
                 expected.extend((tp_id, k, ev.seq) for k in expect)
